@@ -181,7 +181,11 @@ def chfOp (guard : SplitGuard) (sl : ChfSt) : Tok → ChfSt × String
   | ["reset"] => (({}, []), "ok")
   | "create" :: t =>
     (match pReq t with
-     | some (r, []) => runOp guard sl (.create r)
+     | some (r, []) =>
+       -- `Req.nf = none` stands for "no consumer identification the CHF accepts": the member is missing, or - for a
+       -- session - the name has a path separator (the reference built from it could not be the last element of a URI)
+       let r := if !r.one && (r.nf.map (·.contains 47)).getD false then { r with nf := none } else r
+       runOp guard sl (.create r)
      | _ => (sl, "bad-op"))
   | "update" :: sid :: t =>
     (match bytesOfHex sid, pReq t with
